@@ -37,6 +37,26 @@ pub open spec fn tok_concat(ts: Seq<Token>, n: int) -> Seq<u8>
 {
     if n <= 0 { Seq::empty() } else { tok_concat(ts, n - 1) + ts[n - 1].value.spec_bytes() }
 }
+/// what toks_ok and tok_chain say about token k, without quantifiers
+pub proof fn lemma_tok_facts(ts: Seq<Token>, cs: Seq<char>, b: Seq<u8>, ds: &str, de: &str, k: int)
+    requires toks_ok(ts, b, ds, de), tok_chain(ts, cs, cs.len() as int), b == encode_utf8(cs), 0 <= k < ts.len(),
+    ensures
+        0 <= ts[k].byte_start <= ts[k].byte_end <= b.len(),
+        ts[k].value.spec_bytes() == b.subrange(ts[k].byte_start as int, ts[k].byte_end as int),
+        k == 0 ==> ts[k].byte_start == 0,
+        k > 0 ==> ts[k - 1].byte_end == ts[k].byte_start,
+        k == ts.len() - 1 ==> ts[k].byte_end == b.len(),
+{
+    let t = ts[k];
+    assert(tok_ok(t, b, ds, de));
+    assert(t.start < t.end <= cs.len() && t.byte_start == char_byte_pos(cs, t.start as int) && t.byte_end == char_byte_pos(cs, t.end as int));
+    lemma_char_pos_mono(cs, 0, cs.len() as int);
+    if k > 0 {
+        let p = ts[k - 1];
+        assert(p.start < p.end <= cs.len() && p.byte_end == char_byte_pos(cs, p.end as int));
+        assert(ts[k - 1].end == ts[k - 1 + 1].start);
+    }
+}
 /// tokens that are slices of the source and partition it concatenate to the source
 pub proof fn lemma_tok_concat(ts: Seq<Token>, cs: Seq<char>, b: Seq<u8>, ds: &str, de: &str, n: int)
     requires toks_ok(ts, b, ds, de), tok_chain(ts, cs, cs.len() as int), b == encode_utf8(cs), 0 <= n <= ts.len(),
@@ -44,24 +64,24 @@ pub proof fn lemma_tok_concat(ts: Seq<Token>, cs: Seq<char>, b: Seq<u8>, ds: &st
         n == ts.len() ==> tok_concat(ts, n) == b,
     decreases n,
 {
-    lemma_char_pos_mono(cs, 0, cs.len() as int);
+    hide(toks_ok); hide(tok_chain);
     if n == 0 {
         assert(tok_concat(ts, 0) =~= b.subrange(0, 0));
-        if ts.len() == 0 { assert(b =~= b.subrange(0, 0)); }
+        if ts.len() == 0 {
+            assert(cs.len() == 0) by { reveal(tok_chain); }
+            lemma_char_pos_mono(cs, 0, 0);
+            assert(b =~= b.subrange(0, 0));
+        }
     } else {
         lemma_tok_concat(ts, cs, b, ds, de, n - 1);
+        lemma_tok_facts(ts, cs, b, ds, de, n - 1);
         let t = ts[n - 1];
-        assert(tok_ok(t, b, ds, de));
-        if n >= 2 {
-            assert(tok_ok(ts[n - 2], b, ds, de));
-            assert(ts[n - 2].end == ts[n - 2 + 1].start);
-            assert(ts[n - 2].byte_end == t.byte_start);
-        } else {
-            assert(t.byte_start == 0);
-        }
-        assert(tok_concat(ts, n) =~= b.subrange(0, t.byte_end as int));
+        let prev_end: int = if n == 1 { 0 } else { ts[n - 2].byte_end as int };
+        assert(tok_concat(ts, n - 1) == b.subrange(0, prev_end));
+        assert(prev_end == t.byte_start);
+        assert(tok_concat(ts, n) == tok_concat(ts, n - 1) + t.value.spec_bytes());
+        assert(b.subrange(0, t.byte_start as int) + b.subrange(t.byte_start as int, t.byte_end as int) =~= b.subrange(0, t.byte_end as int));
         if n == ts.len() {
-            assert(t.byte_end == b.len());
             assert(b.subrange(0, b.len() as int) =~= b);
         }
     }
